@@ -16,6 +16,10 @@ import (
 
 func c12LateBlock(e *Env) {
 	t := e.Tape
+	if t.Chance(1, 3) {
+		c12LateBlockJoins(e)
+		return
+	}
 	tr := []string{TrUDP, TrDTLS}[t.Choose(2)]
 	cfg := SimUDPConfig(3000)
 	cfg.TransmissionNStart = 16
@@ -112,6 +116,141 @@ func c12LateBlock(e *Env) {
 		}
 	}
 	// let the other request end
+	for _, m := range reqs {
+		if len(m.Opts) > 0 && bytes.Equal(m.Opts[0].Val, []byte("other")) {
+			it := w.Queue(&WMsg{Type: TACK, Code: 0x45, MID: m.MID, Token: m.Token, Payload: []byte("o")}, "answer-other")
+			w.Emit(it, false)
+		}
+	}
+	for i := 0; i < 3; i++ {
+		e.Wait()
+		w.Pump()
+		e.Sleep(time.Millisecond)
+	}
+}
+
+// The other way into the same wait: a copy of block 0 that finds no transfer yet and is stopped on the threshold of
+// starting one (the cache's LoadOrStore); meanwhile the other copy starts the transfer, the final block arrives and
+// holds the guard. The stopped copy then finds the transfer stored, joins it and waits for the guard - which it gets
+// when the assembled response has been handed to the caller.
+func c12LateBlockJoins(e *Env) {
+	t := e.Tape
+	tr := []string{TrUDP, TrDTLS}[t.Choose(2)]
+	cfg := SimUDPConfig(3000)
+	cfg.TransmissionNStart = 16
+	cfg.TransmissionAcknowledgeTimeout = 1000 * time.Second
+	cfg.BlockwiseEnable = true
+	w := NewCWorld(e, CWorldCfg{Transport: tr, UDP: cfg})
+	if w == nil {
+		return
+	}
+	e.Wait()
+	w.Pump()
+	var reqs []*WMsg
+	w.OnRecv = func(m *WMsg) {
+		if m.Code >= 1 && m.Code <= 4 {
+			reqs = append(reqs, m)
+		}
+	}
+	atOnce := t.Chance(1, 3)
+	head := bytes.Repeat([]byte{'h'}, 16)
+	tail := []byte("tail!")
+	e.Logf("cfg transport=%s a copy of block 0 joins the transfer through LoadOrStore; release-at-once=%v", tr, atOnce)
+	a := e.NewCall("get-big", 800, nil, 100*time.Second)
+	a.ReleaseAtOnce = atOnce
+	if !atOnce {
+		a.ReadLater = 3
+		a.OnChanged = func(was, now *RespInfo) {
+			e.Violate("C12.R5", "response-changed-in-callers-hands:late-block", "the response of the block-wise Get was %s when the call returned and is %s three phases later, before the caller released it", was, now)
+		}
+	}
+	e.Start(a, func(ctx context.Context) (*pool.Message, error) { return w.API.Get(ctx, "/big") }, w.API.ReleaseMessage)
+	e.Wait()
+	w.Pump()
+	if len(reqs) != 1 {
+		return
+	}
+	blk := func(req *WMsg, num uint32, more bool, pl []byte) *WMsg {
+		return &WMsg{Type: TACK, Code: 0x45, MID: req.MID, Token: req.Token, Payload: pl, Opts: []WOpt{UintOpt(OptBlock2, BlockOpt(num, more, 0))}}
+	}
+	// first copy of block 0: stopped before it stores the transfer it is about to start
+	e.EnableParkAll("cache.LoadOrStore.afterNow")
+	first := w.Queue(blk(reqs[0], 0, true, head), "block-0")
+	first.NoDup, first.NoDrop = true, true
+	w.Emit(first, true)
+	e.Wait()
+	w.Pump()
+	e.DisableParkAll("cache.LoadOrStore.afterNow")
+	stopped := e.Parked()
+	if len(stopped) != 1 {
+		e.Probe("lateblock.notParked")
+		return
+	}
+	// an unrelated request: a second reader loop
+	b := e.NewCall("get-other", 801, nil, 100*time.Second)
+	b.ReleaseAtOnce = true
+	e.Start(b, func(ctx context.Context) (*pool.Message, error) { return w.API.Get(ctx, "/other") }, w.API.ReleaseMessage)
+	e.Wait()
+	w.Pump()
+	// second copy of block 0: starts the transfer, block 1 is asked for
+	e.Fault("msg.dup")
+	w.Emit(first, false)
+	e.Wait()
+	w.Pump()
+	var ask1 *WMsg
+	for _, m := range reqs {
+		if v, ok := m.OptUint(OptBlock2); ok && v>>4 == 1 {
+			ask1 = m
+		}
+	}
+	if ask1 == nil {
+		e.Probe("lateblock.noRequestForBlock1")
+		for _, pg := range stopped {
+			e.Resume(pg)
+		}
+		e.Wait()
+		return
+	}
+	e.EnableParkAll("blockwise.receive.holdingGuard")
+	final := w.Queue(blk(ask1, 1, false, tail), "block-1 (final)")
+	final.NoDup, final.NoDrop = true, true
+	w.Emit(final, false)
+	e.Wait()
+	w.Pump()
+	e.DisableParkAll("blockwise.receive.holdingGuard")
+	var holder *parkedG
+	for _, pg := range e.Parked() {
+		if pg != stopped[0] {
+			holder = pg
+		}
+	}
+	if holder == nil {
+		e.Probe("lateblock.notParked")
+		e.Resume(stopped[0])
+		e.Wait()
+		return
+	}
+	// the stopped copy goes on: the transfer is there now, it joins and waits for the guard
+	e.Resume(stopped[0])
+	e.Wait()
+	w.Pump()
+	e.NonTrivial()
+	e.Probe("lateblock.copyJoinsThroughLoadOrStore")
+	e.Resume(holder)
+	for i := 0; i < 6; i++ {
+		e.Wait()
+		w.Pump()
+		e.Sleep(time.Millisecond)
+	}
+	if !a.Done() {
+		e.Violate("C12.R6", "answered-call-did-not-return", "both blocks were delivered and the block-wise Get has not returned")
+		return
+	}
+	if ri, err := a.Result(); err == nil && ri != nil {
+		if want := append(append([]byte(nil), head...), tail...); !bytes.Equal(ri.Payload, want) {
+			e.Violate("C12.R5", "response-differs-from-what-was-sent:late-block-joins", "the block-wise Get returned a body of %d bytes, the peer sent %d", len(ri.Payload), len(want))
+		}
+	}
 	for _, m := range reqs {
 		if len(m.Opts) > 0 && bytes.Equal(m.Opts[0].Val, []byte("other")) {
 			it := w.Queue(&WMsg{Type: TACK, Code: 0x45, MID: m.MID, Token: m.Token, Payload: []byte("o")}, "answer-other")
